@@ -190,26 +190,34 @@ def hex8 (v : Nat) : Bytes :=
 def isHexRune (r : Nat) : Bool :=
   (0x30 ≤ r && r ≤ 0x39) || (0x61 ≤ r && r ≤ 0x66) || (0x41 ≤ r && r ≤ 0x46)
 
+/-- The `case r == '\a': … case r == '\v':` arms of the `$'…'` loop: the escape letter. -/
+def ctlLetter (r : Nat) : Option UInt8 :=
+  if r = 0x07 then some 0x61        -- \a
+  else if r = 0x08 then some 0x62   -- \b
+  else if r = 0x0c then some 0x66   -- \f
+  else if r = 0x0a then some 0x6e   -- \n
+  else if r = 0x0d then some 0x72   -- \r
+  else if r = 0x09 then some 0x74   -- \t
+  else if r = 0x0b then some 0x76   -- \v
+  else none
+
 /-- One iteration of the `$'…'` loop: the bytes written and `nextRequoteIfHex`, or the error. -/
 def piece (l : Lang) (lastRequoteIfHex : Bool) (t : Tok) : Except ErrKind (Bytes × Bool) :=
-  let r := t.r
-  if r = 0x27 ∨ r = 0x5c then .ok (0x5c :: encodeRune r, false)
-  else if isPrint r ∧ r ≠ runeError then
-    .ok ((if lastRequoteIfHex && isHexRune r then [0x27, 0x24, 0x27] else []) ++ encodeRune r, false)
-  else if r = 0x07 then .ok ([0x5c, 0x61], false)   -- \a
-  else if r = 0x08 then .ok ([0x5c, 0x62], false)   -- \b
-  else if r = 0x0c then .ok ([0x5c, 0x66], false)   -- \f
-  else if r = 0x0a then .ok ([0x5c, 0x6e], false)   -- \n
-  else if r = 0x0d then .ok ([0x5c, 0x72], false)   -- \r
-  else if r = 0x09 then .ok ([0x5c, 0x74], false)   -- \t
-  else if r = 0x0b then .ok ([0x5c, 0x76], false)   -- \v
-  else if r < 0x80 ∨ (r = runeError ∧ t.size = 1) then
-    -- fmt.Fprintf(&b, "\\x%02x", rem[0])
-    .ok ([0x5c, 0x78] ++ hex2 (t.raw.headD 0).toNat, langIn l langMksh)
-  else if r > maxRune then .error .range
-  else if langIn l langMksh ∧ r > 0xFFFD then .error .mksh
-  else if r < 0x10000 then .ok ([0x5c, 0x75] ++ hex4 r, false)
-  else .ok ([0x5c, 0x55] ++ hex8 r, false)
+  if t.r = 0x27 ∨ t.r = 0x5c then .ok (0x5c :: encodeRune t.r, false)
+  else if isPrint t.r = true ∧ t.r ≠ runeError then
+    .ok ((if lastRequoteIfHex && isHexRune t.r then [0x27, 0x24, 0x27] else []) ++
+      encodeRune t.r, false)
+  else
+    match ctlLetter t.r with
+    | some c => .ok ([0x5c, c], false)
+    | none =>
+      if t.r < 0x80 ∨ (t.r = runeError ∧ t.size = 1) then
+        -- fmt.Fprintf(&b, "\\x%02x", rem[0])
+        .ok ([0x5c, 0x78] ++ hex2 (t.raw.headD 0).toNat, langIn l langMksh)
+      else if t.r > maxRune then .error .range
+      else if langIn l langMksh = true ∧ t.r > 0xFFFD then .error .mksh
+      else if t.r < 0x10000 then .ok ([0x5c, 0x75] ++ hex4 t.r, false)
+      else .ok ([0x5c, 0x55] ++ hex8 t.r, false)
 
 /-- The `$'…'` loop: everything written between `$'` and the final `'`. -/
 def dollarBody (l : Lang) : List Tok → Nat → Bool → Except QErr Bytes
